@@ -264,10 +264,18 @@ def setRet (e : E) (h : Nat) (v : Nat × Nat) (r : Invocation) : Invocation :=
 def release (b : Option Nat) (x : Nat) : Option Nat :=
   if b = some x then none else b
 
+/-- The write wrapper lets a request through.  The wrappers of the current source never wait
+    (`ioWrappersNonBlocking`); a window / semaphore / queue in one of them is modelled as the strictest such
+    limit: one written, unanswered request per endpoint. -/
+def windowFree (sk : Skeleton) (s : State) (e : E) : Bool :=
+  sk.ioWrappersNonBlocking ||
+    (List.range (s.nextCall e)).all (fun t => decide ((s.calls e t).pc ≠ .written ∧ (s.calls e t).pc ≠ .writtenUnreg))
+
 def step (sk : Skeleton) (s : State) : Act → Option State
   | .callStart e fn args => some (startCall sk s e fn args none)
   | .callWrite e t =>
     let c := s.calls e t
+    if windowFree sk s e = false then none else
     match c.pc with
     | .registered =>
       some { s with calls := upd2 s.calls e t { c with pc := .written },
